@@ -232,6 +232,9 @@ V("v_palette_mapper_new", "utils_palette", "util::PaletteMapper::new for EVERY p
 V("v_palette_mapper_lookup", "utils_palette", "util::PaletteMapper::lookup: alpha != 255 -> transparent index; otherwise the mapped index of the colour key or the failure index", ["util::PaletteMapper::lookup"], fn="PaletteMapper::lookup", witness="x_utils")
 V("v_file_tilemap", "tilemap_api", "AsepriteFile::tilemap(layer, frame) for EVERY validated sprite: Some exactly for a tilemap cel of a tilemap layer whose tileset exists (ids in range); then it carries that tileset and that cel, and its logical size is ceil(canvas / tile size) in both directions; no division by zero (tile size >= 1 from the tileset decoder), the assert! cannot fire, the u16 casts are lossless",
   ["file::AsepriteFile::tilemap", "cel::Cel::is_tilemap", "cel::Cel::raw_cel", "tileset::TileSize::from", "tilemap::Tilemap::width", "tilemap::Tilemap::height", "tilemap::Tilemap::tile_size"], fn="AsepriteFile::tilemap", witness=["x_tilemap_views", "x_usable_after_load"])
+V("v_extfiles_add", "dec_ext", "ExternalFilesById::add stores the entry under its own id; get(id) is the map lookup; new() is empty (real one-liners over the HashMap shim)",
+  ["external_file::ExternalFilesById::add", "external_file::ExternalFilesById::get", "external_file::ExternalFilesById::new", "external_file::ExternalFile::id", "external_file::ExternalFileId::value"], fn="ExternalFilesById::add", witness="x_roundtrip_structure")
+V("v_extfiles_get", "dec_ext", "ExternalFilesById::get(id): Some(entry) iff an entry with that id was stored", ["external_file::ExternalFilesById::get"], fn="ExternalFilesById::get", witness="x_roundtrip_structure")
 V("v_tilesets_get", "validate_tilesets", "TilesetsById::get(id) is the map lookup of TilesetId(id) (the assumed contract used by the compose / validate units, here checked on the real one-liner over the HashMap shim)", ["tileset::TilesetsById::get", "tileset::TilesetId::from_raw"], fn="TilesetsById::get")
 V("v_tilesets_add", "validate_tilesets", "TilesetsById::add stores the tileset under its own id (a later chunk with the same id replaces the earlier one)", ["tileset::TilesetsById::add", "tileset::TilesetsById::new"], fn="TilesetsById::add")
 V("v_tilesets_validate", "validate_tilesets", "TilesetsById::validate for EVERY tileset table: Ok => the same tileset ids survive; each has its pixels embedded (a tileset without embedded pixels is refused) and validated (same data; indexed pixels all in the palette); id, tile count, tile size, base index, name and external reference unchanged",
@@ -368,7 +371,7 @@ def prop(id, level, obls, explanation, **kw):
     d.update(kw)
     PROPS[id] = d
 
-prop("C01", "proof", ACC_V + ["v_compute_parents", "v_from_vec", "x_forest_exhaustive", "v_chunk_read", "v_chunk_read_all", "v_dec_layer", "v_dec_layer_type", "v_dec_blend_mode", "v_dec_tags", "v_dec_anim_dir", "v_dec_ext", "v_dec_slice_key", "v_dec_slice9", "v_dec_palette", "v_palette_color", "v_dec_tileset", "v_dec_tileset_ref", "v_check_chunk_bytes"]
+prop("C01", "proof", ACC_V + ["v_extfiles_add", "v_extfiles_get", "v_tilesets_add", "v_tilesets_get", "v_compute_parents", "v_from_vec", "x_forest_exhaustive", "v_chunk_read", "v_chunk_read_all", "v_dec_layer", "v_dec_layer_type", "v_dec_blend_mode", "v_dec_tags", "v_dec_anim_dir", "v_dec_ext", "v_dec_slice_key", "v_dec_slice9", "v_dec_palette", "v_palette_color", "v_dec_tileset", "v_dec_tileset_ref", "v_check_chunk_bytes"]
      + ["k_parse_chunk_type", "k_parse_pixel_format", "k_check_chunk_bytes", "k_pixel_format_accessors"] + READER + LAYER_DEC + TAGS_DEC + SLICE_DEC
      + ["k_palette_chunk_20", "k_palette_chunk_26", "k_palette_chunk_35"] + EXT_DEC + TS_DEC + ["v_read_aseprite", "v_parse_pixel_format", "v_parse_frame", "v_num_frames", "v_num_layers", "v_file_layer", "v_file_frame", "x_decoder_contracts", "x_roundtrip_structure", "x_header_extremes"],
      "Chunk decoders (layer, tags, external files, palette, tileset header, slice keys) are Verus contracts on the real text for EVERY payload length and entity count, field by field against the file-format layout, modulo the reader-primitive contract; the reader primitives and the enum decoders are Kani contracts (enums over their whole domain, primitives and a few decoder shapes on fixed payload sizes with symbolic contents). The composition (header, frame dispatch, accessors) cannot be executed symbolically by Kani nor extracted for Verus and is a bounded stand-in (x_*).")
